@@ -37,7 +37,7 @@ PROPS = {
                  stream('pord', 'items:PartialOrd,Ord', force=['PartialOrd'], kinds=('struct', 'enum'))],
         k2=['ord'], k2_n=(100, 800),
         k2_also=[('generics', 'PartialOrd', (40, 300))],
-        direct=[('rejections', (1500, 15000), dict(pool=['PartialOrd', 'Ord'] + ['Clone', 'Debug'], must=[('PartialOrd', 'Ord')], key='c03r'))],
+        direct=[('c03', (1, 1)), ('rejections', (1500, 15000), dict(pool=['PartialOrd', 'Ord'] + ['Clone', 'Debug'], must=[('PartialOrd', 'Ord')], key='c03r'))],
     ),
     'C04': dict(
         title='Enum variants order by declared discriminant, never by memory layout',
